@@ -215,6 +215,7 @@ func (d *Pegnetd) NullifyMintedTokens(ctx context.Context, tx *sql.Tx, height ui
 		fLog.WithFields(log.Fields{
 			"err": err,
 		}).Info("zeroing burn | balances retrieval failed")
+		return err
 	}
 
 	for _, tokenSupply := range MintTotalSupplyMap {
@@ -490,10 +491,16 @@ func (d *Pegnetd) SyncBlock(ctx context.Context, tx *sql.Tx, height uint32) erro
 				// We need to handle the no rates case. Miners could avoid mining this last block.
 				// use the last valid rates from last block
 				rates, err = d.Pegnet.SelectPendingRates(ctx, tx, height-1)
+				if err != nil {
+					return err
+				}
 			}
 
 			if (rates == nil || len(rates) == 0) && height >= config.V202EnhanceActivation {
 				rates, _, err = d.Pegnet.SelectMostRecentRatesBeforeHeight(ctx, tx, height)
+				if err != nil {
+					return err
+				}
 			}
 
 			// If no rates for second time, skip Snapshot logic
@@ -575,6 +582,7 @@ func (d *Pegnetd) SyncBlock(ctx context.Context, tx *sql.Tx, height uint32) erro
 		err := d.DevelopersPayouts(tx, fLog, height, dblock.Timestamp, developersList)
 		if err != nil {
 			fLog.WithFields(log.Fields{"section": "devReward", "reason": "developer reward"}).Tracef("something wrong happend during dev payout execution")
+			return err
 		}
 	}
 
